@@ -15,7 +15,9 @@ typedef struct { int _mutex; } HttpClient;
 
 /* stated bound on the retry budget: the back-off `(1 << attempt) * 100 + jitter(0..99)` is computed for attempt < retries and stays
  * within int for attempt <= 24, i.e. retries <= 25 */
+#ifndef RETRIES_MAX
 #define RETRIES_MAX 25
+#endif
 
 /* ghost snapshot of IDEM(method), bound by the precondition (the loop invariant must not re-read the method bytes) */
 bool G_idem;
